@@ -1032,7 +1032,7 @@ func c12E2E(a lib.Args, res *lib.Result) error {
 			res.Count(fmt.Sprintf("e2e-trunc|%s|%d", mode, cut), true, "e2e:truncated:"+mode)
 			if put.Status < 400 && put.Err == nil || get.Status == 200 {
 				res.Fail(lib.Failure{Kind: "property", Signature: "e2e:" + mode + ":truncated-upload-accepted",
-					What: fmt.Sprintf("chunked upload cut after %d of %d wire bytes (declared decoded length %d) answered %d; GET afterwards %d with %d bytes", cut, wlen, d, put.Status, get.Status, len(get.Body)),
+					What:  fmt.Sprintf("chunked upload cut after %d of %d wire bytes (declared decoded length %d) answered %d; GET afterwards %d with %d bytes", cut, wlen, d, put.Status, get.Status, len(get.Body)),
 					Input: map[string]interface{}{"e2e": true, "mode": mode, "cut": cut, "wire_len": wlen, "declared": d}, Impl: fmt.Sprint(put.Status)})
 			}
 		}
